@@ -175,32 +175,36 @@ class Ctx:
         return impl, twin, dis
 
     def replay_compare(self, programs, max_iters):
-        """decision replay: twin re-executes each implementation iteration from its start path"""
-        impl = lvlib.run_impl(programs, starts=True, max_iters=max_iters)
-        out = []
-        inp = []
-        index = []
-        for p in programs:
+        """decision replay: twin re-executes each implementation iteration from its start path.
+        Done program by program on all cores, within a budget of iterations (a change that makes every program
+        differ must not exhaust memory); what is beyond the budget stays 'differing'."""
+        from concurrent.futures import ThreadPoolExecutor
+        budget = [60000 if self.quick else 600000]
+
+        def one(p):
+            impl = lvlib.run_impl([p], starts=True, max_iters=max_iters)
             its, _done = lvlib.iterations(impl.get(p, []))
-            inp.append("PROG " + p)
-            for it in its:
-                if "start" in it:
-                    inp.append("S " + it["start"])
-                    index.append((p, it))
-        r = subprocess.run([lvlib.DRIVER_BIN, "replay"], input="\n".join(inp) + "\n", stdout=subprocess.PIPE,
-                           stderr=subprocess.DEVNULL, text=True)
-        blocks = r.stdout.split("END\n")
-        bad = {}
-        for (p, it), blk in zip(index, blocks):
-            tl = [l for l in blk.split("\n") if l and not l.startswith("XE ")]
-            il = [l for l in it["lines"] if not l.startswith("XE ") and not l.startswith("S ")]
-            if tl != il and p not in bad:
-                d = lvlib.first_diff(il, tl)
-                bad[p] = {"iteration": it["idx"], "impl": d[1][:400], "twin": d[2][:400], "start": it.get("start")}
-        if len(blocks) - 1 != len(index):
-            for p in programs:
-                bad.setdefault(p, {"iteration": 0, "impl": "", "twin": "replay driver failed"})
-        return list(bad.items())
+            todo = [it for it in its if "start" in it]
+            if budget[0] < len(todo):
+                return p, {"iteration": 0, "impl": "", "twin": "not replayed (replay budget of this tier exhausted)"}
+            budget[0] -= len(todo)
+            inp = ["PROG " + p] + ["S " + it["start"] for it in todo]
+            r = subprocess.run([lvlib.DRIVER_BIN, "replay"], input="\n".join(inp) + "\n", stdout=subprocess.PIPE,
+                               stderr=subprocess.DEVNULL, text=True)
+            blocks = r.stdout.split("END\n")
+            if len(blocks) - 1 != len(todo):
+                return p, {"iteration": 0, "impl": "", "twin": "replay driver failed"}
+            for it, blk in zip(todo, blocks):
+                tl = [l for l in blk.split("\n") if l and not l.startswith("XE ")]
+                il = [l for l in it["lines"] if not l.startswith("XE ") and not l.startswith("S ")]
+                if tl != il:
+                    d = lvlib.first_diff(il, tl)
+                    return p, {"iteration": it["idx"], "impl": d[1][:400], "twin": d[2][:400], "start": it.get("start")}
+            return p, None
+
+        with ThreadPoolExecutor(max_workers=lvlib.NPROC) as ex:
+            res = list(ex.map(one, programs))
+        return [(p, d) for p, d in res if d is not None]
 
     # ------------------------------------------------------------------ reference outcomes
     def sc_check(self, programs, impl, max_states, soundness=True, completeness=True, exact=False, _record=True):
